@@ -46,6 +46,8 @@ type imgSpec struct {
 	Ext   int    `json:"ext"`   // 1: the first layer is a foreign layer with external urls (blob present at the source)
 	Alg   string `json:"alg"`   // digest algorithm of every digest of the source: "" = sha256 | sha512
 	Base  int    `json:"base"`  // 1: OCI manifests carry the base image annotations (name = the new base, digest = the old one)
+	UT    int    `json:"ut"`    // 1: uniform time: every time stamp of the image (tar headers, nested tar, config, history) is 2020-01-01T00:00:00Z
+	Ser   string `json:"ser"`   // how the layers were serialised: "" = Go defaults | alt = gzip best speed with a header name, zstd fastest, tar with extra end padding
 
 	baseName, baseDigest string // filled in by the driver for Base = 1
 }
@@ -103,6 +105,10 @@ func mkTar(files []tfile, day int) []byte {
 	var buf bytes.Buffer
 	tw := tar.NewWriter(&buf)
 	mt := t2020.AddDate(0, 0, day)
+	uniform := day < 0 // every time of every entry is t2020
+	if uniform {
+		mt = t2020
+	}
 	for _, f := range files {
 		h := &tar.Header{Name: f.Name, Mode: 0o644, ModTime: mt, Uname: "root", Gname: "root", Uid: 0, Gid: 0}
 		if f.Dir {
@@ -116,6 +122,9 @@ func mkTar(files []tfile, day int) []byte {
 			h.Format = tar.FormatPAX
 			h.AccessTime = mt.Add(time.Hour)
 			h.ChangeTime = mt.Add(2 * time.Hour)
+			if uniform {
+				h.AccessTime, h.ChangeTime = mt, mt
+			}
 		}
 		if err := tw.WriteHeader(h); err != nil {
 			panic(err)
@@ -130,9 +139,13 @@ func mkTar(files []tfile, day int) []byte {
 
 // layerTar: every entry of layer <tag><i> lives below the directory <tag><i>/ so that stripping
 // that directory empties the layer; <tag><i>/marker identifies the layer to the audit.
-func layerTar(tag string, i int, arch string) []byte {
+func layerTar(sp imgSpec, tag string, i int, arch string) []byte {
 	d := fmt.Sprintf("%s%d", tag, i)
-	inner := mkTar([]tfile{{Name: "in.txt", Body: "inner " + d}}, 20)
+	innerDay, day := 20, i
+	if sp.UT == 1 {
+		innerDay, day = -1, -1
+	}
+	inner := mkTar([]tfile{{Name: "in.txt", Body: "inner " + d}}, innerDay)
 	fs := []tfile{
 		{Name: d + "/", Dir: true},
 		{Name: d + "/marker", Body: strings.ToUpper(d)},
@@ -142,24 +155,36 @@ func layerTar(tag string, i int, arch string) []byte {
 	if i == 1 {
 		fs = append(fs, tfile{Name: d + "/inner.tar", Body: string(inner)})
 	}
-	return mkTar(fs, i)
+	t := mkTar(fs, day)
+	if sp.Ser == "alt" {
+		t = append(t, make([]byte, 1024)...) // more end-of-archive padding than Go writes: still the same archive
+	}
+	return t
 }
 
 func addTar() []byte {
 	return mkTar([]tfile{{Name: "add/", Dir: true}, {Name: "add/marker", Body: "NEW"}, {Name: "add/file.txt", Body: "added content"}}, 9)
 }
 
-func compress(kind string, b []byte) []byte {
+func compress(kind string, b []byte, ser string) []byte {
 	switch kind {
 	case "gzip":
 		var buf bytes.Buffer
 		w := gzip.NewWriter(&buf)
+		if ser == "alt" {
+			w, _ = gzip.NewWriterLevel(&buf, gzip.BestSpeed)
+			w.Header.Name = "layer.tar"
+		}
 		_, _ = w.Write(b)
 		_ = w.Close()
 		return buf.Bytes()
 	case "zstd":
 		var buf bytes.Buffer
-		w, err := zstd.NewWriter(&buf)
+		lvl := zstd.SpeedDefault
+		if ser == "alt" {
+			lvl = zstd.SpeedFastest
+		}
+		w, err := zstd.NewWriter(&buf, zstd.WithEncoderLevel(lvl))
 		if err != nil {
 			panic(err)
 		}
@@ -213,13 +238,13 @@ func (b *built) oneImage(sp imgSpec, tag string, n int, hist, arch string, annot
 	layers := []any{}
 	diffs := []string{}
 	for i := 1; i <= n; i++ {
-		tarb := layerTar(tag, i, arch)
+		tarb := layerTar(sp, tag, i, arch)
 		c := compOf(sp.Comp, i)
 		ext := sp.Ext == 1 && i == 1 && tag == "l"
 		if ext {
 			c = "gzip"
 		}
-		raw := compress(c, tarb)
+		raw := compress(c, tarb, sp.Ser)
 		d := b.add(raw, false, "")
 		ld := desc(layerMT(family, c), d, len(raw))
 		if ext {
@@ -239,6 +264,9 @@ func (b *built) oneImage(sp imgSpec, tag string, n int, hist, arch string, annot
 	li, ei := 0, 0
 	for k, ch := range hist {
 		created := t2020.AddDate(0, 0, k).Format(time.RFC3339)
+		if sp.UT == 1 {
+			created = t2020.Format(time.RFC3339)
+		}
 		if ch == 'L' {
 			li++
 			history = append(history, map[string]any{"created": created, "created_by": fmt.Sprintf("ADD %s%d", strings.ToUpper(tag), li)})
@@ -248,13 +276,16 @@ func (b *built) oneImage(sp imgSpec, tag string, n int, hist, arch string, annot
 		}
 	}
 	cfg := map[string]any{
-		"created":      t2020.AddDate(0, 1, 0).Format(time.RFC3339),
+		"created":      t2020.AddDate(0, 1-sp.UT, 0).Format(time.RFC3339),
 		"architecture": arch,
 		"os":           "linux",
 		"config": map[string]any{
-			"Env":    []string{"PATH=/bin", "E1=v1"},
-			"Cmd":    []string{"/bin/app"},
-			"Labels": map[string]string{"keep": "v", "stamp": "2019-06-01T00:00:00Z"},
+			"Env":          []string{"PATH=/bin", "E1=v1"},
+			"Cmd":          []string{"/bin/app"},
+			"Entrypoint":   []string{"/entry"},
+			"ExposedPorts": map[string]any{"8080/tcp": map[string]any{}},
+			"Volumes":      map[string]any{"/data": map[string]any{}},
+			"Labels":       map[string]string{"keep": "v", "stamp": "2019-06-01T00:00:00Z"},
 		},
 		"rootfs": map[string]any{"type": "layers", "diff_ids": diffs},
 	}
